@@ -81,6 +81,8 @@ def classify(ix, msg):
     if m:
         up = [ix.tid_of(x) for x in re.findall(r"\nneeded by (.*?) in ", body)]
         return "noprov:%d:%s" % (ix.tid_of(m.group(1)), ",".join(str(x) for x in up))
+    if body.strip() == "unused provider set":
+        return "unusedset:?"          # a set written in place has no name to print
     m = re.match(r"unused (provider set|provider|value of type|interface binding to type|field) (.*)$", body, re.S)
     if m:
         kind, arg = m.group(1), m.group(2).strip()
@@ -287,12 +289,15 @@ def ambiguous_funcs(ix):
 def norm_unused(ix, reply):
     """replace unusedprov:<id> by unusedprov:?<printed name> where the diagnostic is ambiguous"""
     amb = ambiguous_funcs(ix)
-    if not amb:
+    inline = {str(t["id"]) for t in ix.u.sets if t.get("inline")}
+    if not amb and not inline:
         return reply
     out = []
     for w in reply.split():
         if w.startswith("unusedprov:") and w[11:].isdigit() and int(w[11:]) in amb:
             w = "unusedprov:?" + amb[int(w[11:])]
+        if w.startswith("unusedset:") and w[10:] in inline:
+            w = "unusedset:?"
         out.append(w)
     return " ".join(out)
 
